@@ -15,7 +15,7 @@ import sympy as sp
 
 from ..loader import U, norm_stmt, AnalysisError, expand_pred
 from .. import spec as SP
-from ..term import (Lifter, Slots, Tup, Opaque, Unsupported, summand, is_zero,
+from ..term import (NotASum, Lifter, Slots, Tup, Opaque, Unsupported, summand, is_zero,
                     gaussian_family, S, has_S)
 
 KERNELS = ('_compute_log_likelihood', '_compute_pointwise_ll',
@@ -73,12 +73,22 @@ def r04_terms(ctx, repo):
         c = '%s.%s' % (cls, KERNELS[0])
         try:
             l = summand(tot)
+        except NotASum as e:
+            ctx.violation('R04.2', repo.loc(f_tot, cls, KERNELS[0]), c,
+                          'total not a sum',
+                          'the total log-likelihood is not a sum of '
+                          'per-observation terms (%s): it cannot equal the '
+                          'sum of the pointwise values for every number of '
+                          'observations' % e, engine=eng)
+            l = None
         except Unsupported as e:
             ctx.error('R04.2', '%s: %s' % (c, e))
             continue
-        z = is_zero(l - pw)
+        z = is_zero(l - pw) if l is not None else 'reported'
         where = repo.loc(f_tot, cls, KERNELS[0])
-        if z is True:
+        if z == 'reported':
+            pass
+        elif z is True:
             ctx.ok('R04.2', where, c, 'total log-likelihood = sum over '
                    'observations of the pointwise expression', engine=eng)
         elif z is False:
@@ -98,11 +108,19 @@ def r04_terms(ctx, repo):
         score, sens = se
         try:
             ls = summand(score)
+        except NotASum as e:
+            ctx.violation('R04.2', where3, c3, 'score not a sum',
+                          'the score returned by the sensitivities kernel '
+                          'is not a sum of per-observation terms (%s)' % e,
+                          engine=eng)
+            ls = None
         except Unsupported as e:
             ctx.error('R04.2', '%s: %s' % (c3, e))
             continue
-        z = is_zero(ls - pw)
-        if z is True:
+        z = is_zero(ls - pw) if ls is not None else 'reported'
+        if z == 'reported':
+            pass
+        elif z is True:
             ctx.ok('R04.2', where3, c3, 'score returned with the '
                    'sensitivities = total log-likelihood', engine=eng)
         elif z is False:
@@ -330,6 +348,18 @@ def _sign_eval(e, env):
         return None if v is None else (not v)
     if isinstance(e, ast.Call) and U(e.func) in ('np.any', 'np.all', 'any',
                                                  'all') and e.args:
+        mixed = [k for k, v in env.items() if v == 'mixed']
+        if mixed:
+            # an array with elements of both signs: the reduction decides
+            k = mixed[0]
+            vs = []
+            for sg in ('neg', 'pos'):
+                e2 = dict(env)
+                e2[k] = sg
+                vs.append(_sign_eval(e, e2))
+            if any(v is None for v in vs):
+                return None
+            return any(vs) if U(e.func) in ('np.any', 'any') else all(vs)
         # arrays are given one sign for all elements
         return _sign_eval(e.args[0], env)
     if isinstance(e, ast.Compare) and len(e.ops) == 1:
@@ -404,7 +434,8 @@ def r04_1(ctx, repo):
                 continue
             cases = [(s, sg) for s in scales for sg in ('zero', 'neg')]
             if lognormal:
-                cases += [('model_output', 'zero'), ('model_output', 'neg')]
+                cases += [('model_output', 'zero'), ('model_output', 'neg'),
+                          ('model_output', 'mixed')]
             else:
                 # the documented support of the model output and of the
                 # observations is the whole real line: non-positive values
@@ -436,7 +467,9 @@ def r04_1(ctx, repo):
                 env = dict(base)
                 env[s] = sg
                 v = _sign_eval(gtest, env)
-                what = '%s %s 0' % (s, '=' if sg == 'zero' else '<')
+                what = '%s %s 0' % (s, '=' if sg == 'zero' else '<') \
+                    if sg != 'mixed' else \
+                    '%s with some (not all) entries <= 0' % s
                 if v is True:
                     ctx.ok(rule, repo.loc(g, cls, m), construct,
                            'guard `%s` rejects %s' % (U(g.test), what))
@@ -556,6 +589,31 @@ def r06_1(ctx, repo):
         if not eps or isinstance(val, Opaque):
             ctx.error(rule, '%s: no generator draw recognised' % construct)
             continue
+        # numpy rejects a negative scale: over the model's documented domain
+        # (Gaussian family: any real model output) the scale handed to the
+        # generator must be non-negative
+        if sp_['family'] == 'gaussian':
+            ybr = sp.Symbol('ybr', real=True)
+            lf2 = Lifter(repo, cls, flags={'n_samples is None': False})
+            env2 = dict(env)
+            env2['model_output'] = ybr
+            try:
+                lf2.run(fn, env2)
+                draws2 = lf2.draws
+            except Unsupported:
+                draws2 = []
+            for d in draws2:
+                if d[0] in ('normal', 'lognormal') and isinstance(
+                        d[2], sp.Expr) and d[2].is_nonnegative is not True \
+                        and d[2].has(ybr):
+                    ctx.violation(
+                        rule, where, construct, 'scale may be negative',
+                        'the generator is asked for draws with scale `%s`, '
+                        'which is negative for a negative model output: '
+                        'numpy raises "scale < 0" for predictions the '
+                        'log-likelihood scores without complaint' % str(
+                            d[2]).replace('ybr', 'model_output'),
+                        engine=eng)
         # the density's mean / variance
         _, _, pw = _lift(repo, cls, KERNELS[1], params)
         if sp_['family'] == 'gaussian':
@@ -602,7 +660,8 @@ def r06_1(ctx, repo):
                    'the density (%s)' % (what, sp.factor(var)), engine=eng)
         elif zv is False:
             ctx.violation(
-                rule, where, construct, 'sampler variance',
+                rule, where, construct,
+                'sampler variance %s' % str(sp.factor(v0)).replace(' ', ''),
                 'variance of %s is %s (sum over %d independent draws) but '
                 'the density scored by the log-likelihood has variance %s'
                 % (what, sp.factor(v0), len(eps), sp.factor(var)),
